@@ -6,7 +6,6 @@
 import Manticore.Model.C08
 import Manticore.Lemmas.C08Layout
 import Manticore.Lemmas.C08Der
-import Manticore.Props.C08.Consts
 namespace Manticore.C08
 open Manticore
 
